@@ -3,6 +3,8 @@
 import json
 
 ENV = "export GOFLAGS=-mod=mod GOPROXY=off; "
+E1TEXT = 'Closed system of 4 real replicas (optionally one equivocating twin pair or a scripted Byzantine replica) wired from the production constructors; transitions are one real handler run to quiescence (delivery, duplicate delivery, loss, local timer expiry, crafted message). Explored: all interleavings at horizon 1 (2 thorough) and every execution within 1 (2) deviations of the lock-step FIFO schedule at horizon 6, for the three rulesets, with canonical-state merging and replay-determinism checks; monitors evaluate the property on every transition.'
+E1NOTE = 'Synchronous vote verification, EdDSA, harness clock in block hashes; n=4 (n=7 only in thorough C05); fast-hotstuff never commits on this tree (known finding C05), so its commit-related verdicts are vacuous and the evidence says so.'
 CLAIMED = {
  # id: (engine, technique, level text, level note, design ref)
  "C20": ("enum", "exhaustive enumeration of every n up to the bound on the real functions + threshold probes through the real certificate checks",
@@ -47,6 +49,17 @@ CLAIMED = {
  "C09": ("seqmc", "exhaustive enumeration of message arrival orders at a real vote collector (clique leader and Kauri tree node) against a reference count of distinct valid voters",
          "Clique: every permutation of {proposal, 1..3 honest votes} plus every subset of <=2 (3 thorough) of 9 hostile votes (duplicate, forged, other-block, two-signer, own-signature-twice, non-member, unknown block, old block, relabelled) delivered to a fresh replica that is next leader, n=4, EdDSA and ECDSA (n=7 thorough); votes before the proposal take the deferred path. Kauri: every sequence up to length 4 (5) of child contributions {full aggregate, partial, other-block, wrong view, no signature, overlapping} with the aggregation timer at every position, root and interior node, n=4 (7). Every emitted QC / contribution is verified by another replica.",
          "Asynchronous verification is explored separately under the controlled scheduler (schedmc) when built; BLS is not used here.", "§4 C09"),
+ "C01": ("clustermc", "explicit-state search over the closed system of real replicas (deviation-bounded + full interleavings at small horizon), invariant monitors on every transition",
+         "%s Oracle: per replica the committed sequence is a hash-linked chain from genesis with increasing views and no repeats, any two honest replicas' sequences are prefix-related, CommittedBlock equals the last commit." % E1TEXT, E1NOTE, "§2, §4 C01"),
+ "C03": ("clustermc", "explicit-state search over the closed system of real replicas; monitor on every signing event of every honest replica (ground truth under the signing primitive)",
+         "%s Oracle: every vote is for a block proposed by (and received from) the leader of its view, whose QC is backed by a ground-truth quorum for its parent, with view above the certified block; vote views strictly increase and never fall at or below a view the replica signed a timeout for." % E1TEXT, E1NOTE, "§2, §4 C03"),
+ "C05": ("clustermc", "exhaustive enumeration of prefix states (from the explicit-state search) x crash sets, each followed by the deterministic synchronous suffix on the real replicas",
+         "Prefix set: canonical states of the deviation-bounded exploration at horizon 3 (5 thorough) with loss, reordering, duplicates, timer expiries and twin equivocation, capped as reported; crash sets: none and every single replica; oracle: every member of the live quorum commits a new block before view heal+3*ChainLength+2; plus the fault-free 12-view lock-step run (round-robin and fixed leader) with commits trailing by exactly the chain length.",
+         "The bound is fixed in the harness; heal view = highest view in the prefix state + 2; fast-hotstuff fails as a known finding (behaviour asserted by TestAdvanceView).", "§4 C05"),
+ "C06": ("clustermc", "explicit-state search over the closed system of real replicas with real ClientIO / CommandCache; digest-explaining monitor on every transition",
+         "%s Oracle: one ExecuteEvent per committed block in chain order, the application count and digest are explained by executing the committed commands once in order, no (client, seq) twice, executed sequences of honest replicas prefix-related." % E1TEXT, E1NOTE + " Waiting ExecCommand callers are not modelled (outcomes are checked through count/digest only).", "§2, §4 C06"),
+ "C07": ("clustermc", "explicit-state search over the closed system of real replicas; monotonicity and evidence monitors on every transition against the ground truth of real signatures",
+         "%s Oracle: view, high QC view (and its block's view), high TC view and committed view never decrease; every view increment is signalled by a consecutive ViewChangeEvent and is justified by a ground-truth quorum of votes (block of view >= v) or timeouts (view >= v); every new high QC / high TC is backed by real signatures." % E1TEXT, E1NOTE, "§2, §4 C07"),
 }
 PENDING = {}  # id -> reason (properties not claimed)
 
